@@ -425,3 +425,79 @@ Proof.
   destruct (run_reader_st (run_fuel (reader_new (kind_of p)) n) (reader_new (kind_of p)) n fi) as [r' res]. cbn [fst snd] in *.
   rewrite (IH r' Ht Hbc). f_equal. rewrite Hs. exact (rtu_any_schedule p n fi Hbn).
 Qed.
+
+(* ================================================================================================
+   Cancel-safety and compositionality (RTU, both parser roles)
+   ================================================================================================ *)
+Definition rtu_rd (p : ptype) (st : rstate) (b : buf) : reader := {| r_parser := PRtu p st; r_buf := b |}.
+
+Theorem rtu_cancel_safe : forall p st b n1 n2 fi r1 n1',
+  wf b -> bytes (b_pend b) -> Forall bytes n1 -> Forall bytes n2 -> rst_ok st ->
+  next_frame (nf_fuel n1) (rtu_rd p st b) n1 FinPending = (r1, n1', NfEnd EndPending) ->
+  next_frame (nf_fuel n2) r1 n2 fi = next_frame (nf_fuel (n1 ++ n2)) (rtu_rd p st b) (n1 ++ n2) fi /\
+  n1' = [] /\ exists st1 b1, r1 = rtu_rd p st1 b1 /\ wf b1 /\ bytes (b_pend b1) /\ rst_ok st1.
+Proof.
+  intros p st b n1 n2 fi r1 n1' Hwf Hb Hb1 Hb2 Hst E.
+  destruct (rtu_nf_cancel_safe p st b n1 n2 fi r1 n1' (nf_fuel n1) (nf_fuel n2) (nf_fuel (n1 ++ n2)) Hwf Hb Hb1 Hb2 Hst
+              ltac:(unfold nf_fuel; lia) ltac:(unfold nf_fuel; lia) ltac:(unfold nf_fuel; lia) E) as [Heq Hw].
+  split; [exact Heq|].
+  pose proof (rtu_nf_app p (nf_fuel n1) st b n1 [] FinPending 1 Hwf Hb Hb1 ltac:(constructor) Hst ltac:(unfold nf_fuel; lia) ltac:(cbn; lia)) as Happ.
+  unfold rd, rtu_rd in *. rewrite E in Happ. destruct Happ as (Hn & _). split; [exact Hn|].
+  destruct Hw as (st1 & b1 & -> & Hwf1 & Hok1 & Hst1 & _). exists st1, b1. repeat split; assumption.
+Qed.
+
+Theorem rtu_cancel_safe_session : forall p chunks fi, Forall bytes chunks ->
+  run_cancel (reader_new (kind_of p)) chunks fi = run_session (kind_of p) false chunks fi.
+Proof.
+  intros p chunks fi Hb. unfold run_session. pose proof (sbytes_le chunks) as Hs.
+  replace (reader_new (kind_of p)) with (rd rstate (PRtu p) Start buf_new) by (destruct p; reflexivity).
+  set (G := run_fuel (rd rstate (PRtu p) Start buf_new) chunks).
+  assert (HG : G = length (concat chunks) + 2) by reflexivity.
+  rewrite <- (run_reader_st_snd G).
+  rewrite (rtu_run_st_fuel_indep p G (S G) Start buf_new chunks fi wf_new bytes_nil Hb I);
+    [|unfold rmeasure; cbn [buf_new b_pend app rcons_need]; lia|unfold rmeasure; cbn [buf_new b_pend app rcons_need]; lia].
+  rewrite run_reader_st_snd.
+  apply (rtu_run_cancel_eq p chunks Start buf_new fi (S G) wf_new bytes_nil Hb I). cbn [buf_new b_pend length]. lia.
+Qed.
+
+(* --- the Spec over s1 ++ s2 --- *)
+Theorem ref_rtu_frames_app : forall r s1 s2 fi,
+  ref_rtu_frames r (s1 ++ s2) fi =
+  match ref_rtu_frames r s1 FinPending with
+  | (fs1, EndPending) => (fs1 ++ fst (ref_rtu_frames r (rtu_tail r s1 ++ s2) fi), snd (ref_rtu_frames r (rtu_tail r s1 ++ s2) fi))
+  | x => x
+  end.
+Proof.
+  intros r s1 s2 fi. assert (Hp : exists p, r = role_of p) by (destruct r; [exists Request|exists Response]; reflexivity).
+  destruct Hp as [p ->]. unfold ref_rtu_frames. pose proof (rtu_tail_len p s1) as Ht.
+  rewrite (rtu_ref_app p (S (length (s1 ++ s2))) s1 s2 fi) by lia.
+  rewrite (rref_fuel p (S (length (s1 ++ s2))) (S (length s1)) s1) by (rewrite ?app_length; lia).
+  rewrite (rref_fuel p (S (length (s1 ++ s2))) (S (length (rtu_tail (role_of p) s1 ++ s2))) (rtu_tail (role_of p) s1 ++ s2)) by (rewrite ?app_length; lia).
+  reflexivity.
+Qed.
+
+(* --- a connection / bus that goes on --- *)
+Definition rtu_reader_represents (p : ptype) (r : reader) (t : list N) : Prop := rtu_represents p r t.
+
+Theorem rtu_represents_fresh' : forall p, rtu_reader_represents p (reader_new (kind_of p)) [].
+Proof. intros p. pose proof (rtu_represents_fresh p) as H. destruct p; exact H. Qed.
+
+Theorem rtu_run_represents' : forall p r t n fi, rtu_reader_represents p r t -> Forall bytes n ->
+  run_reader (run_fuel r n) false r n fi = lift_frames (ref_rtu_frames (role_of p) (t ++ sbytes n) (sfin n fi)) /\
+  snd (run_reader_st (run_fuel r n) r n fi) = lift_frames (ref_rtu_frames (role_of p) (t ++ sbytes n) (sfin n fi)).
+Proof.
+  intros p r t n fi Hrep Hb. pose proof (sbytes_le n).
+  assert (H1 : run_reader (run_fuel r n) false r n fi = lift_frames (ref_rtu_frames (role_of p) (t ++ sbytes n) (sfin n fi))).
+  { unfold ref_rtu_frames. apply (rtu_run_represents p r t n fi (run_fuel r n) (S (length (t ++ sbytes n))) Hrep Hb); unfold run_fuel; lia. }
+  split; [exact H1|]. now rewrite run_reader_st_snd.
+Qed.
+
+Theorem rtu_represents_step' : forall p r t n r1 l1, rtu_reader_represents p r t -> Forall bytes n ->
+  run_reader_st (run_fuel r n) r n FinPending = (r1, (l1, EndPending)) ->
+  rtu_reader_represents p r1 (rtu_tail (role_of p) (t ++ sbytes n)) /\
+  l1 = map IFrame (fst (ref_rtu_frames (role_of p) (t ++ sbytes n) FinPending)) /\
+  snd (ref_rtu_frames (role_of p) (t ++ sbytes n) FinPending) = EndPending.
+Proof.
+  intros p r t n r1 l1 Hrep Hb E. pose proof (sbytes_le n).
+  exact (rtu_represents_step p r t n (run_fuel r n) r1 l1 Hrep Hb ltac:(unfold run_fuel; lia) E).
+Qed.
